@@ -14,6 +14,12 @@
 (*   Export{c, items, val}  the exporter of c was handed items                 *)
 (*   CompShutdown{c}  ExpShutdown{c}   Shutdown seen by the component / exporter*)
 (*   Panic{k, op}  Hung{k, op, where}  Crash{}   EndScenario{quiescent}        *)
+(*   Fault{f}  the environment switches to fault mode f (logged before it takes *)
+(*     effect): user-supplied components fail from now on -- processors' and    *)
+(*     exporters' Shutdown / ForceFlush, observable callbacks, external         *)
+(*     Producers, metric exporters.  The statement's clauses are unaffected:    *)
+(*     every component and exporter is still shut down exactly once; only the   *)
+(*     error class "fault" becomes an admissible return value.                  *)
 (*                                                                             *)
 (* Real-time order is only used in its sound direction: "A returned before B   *)
 (* was called".  With concurrent calls a component is in one of three states:  *)
@@ -48,6 +54,7 @@ Fresh(cfg) ==
    \* consequences of the listed known findings from anything else):
    unk |-> FALSE,                      \* an Unregister(c) was called while c was not certainly registered
    canc |-> FALSE,                     \* a Shutdown with an already-cancelled context was called
+   faulted |-> FALSE,                  \* a fault mode has been switched on (components may return errors)
    calls |-> <<>>,                     \* k -> what was known when call k was made
    open |-> <<>>,                      \* item -> k of the call that currently handles it
    seen |-> {},                        \* <<item, phase, component>> delivered
@@ -62,9 +69,15 @@ V(kind, e, extra) == [kind |-> kind, op |-> (IF "op" \in DOMAIN e THEN e.op ELSE
 
 ErrViol(m, e, call) ==
   IF e.errc = "" THEN {}
-  ELSE IF e.errc = "ctx" THEN (IF call.ctx = "cancelled" THEN {} ELSE {V("undocumented-error", e, "ctx")})
+  \* a context error needs a cancelled context -- or, metric SDK, a call that overlaps a Shutdown (made before a live
+  \* Shutdown had returned): the periodic reader serves ForceFlush on its run loop, whose context Shutdown cancels;
+  \* the statement only speaks about calls made after Shutdown has returned
+  ELSE IF e.errc = "ctx"
+    THEN (IF call.ctx = "cancelled" \/ (m.cfg.prov = "metric" /\ m.sdBegun /\ call.pre) THEN {}
+          ELSE {V("undocumented-error", e, "ctx")})
   ELSE IF e.errc = "reader-shutdown"
     THEN (IF m.cfg.prov = "metric" /\ m.sdBegun THEN {} ELSE {V("undocumented-error", e, "reader-shutdown")})
+  ELSE IF e.errc = "fault" THEN (IF m.faulted THEN {} ELSE {V("undocumented-error", e, "fault")})
   ELSE {V("undocumented-error", e, e.errc)}
 
 (* components that must have been shut down once a live Shutdown has completed *)
@@ -120,6 +133,7 @@ OnRet(m, e) ==
          <<m1,
            IF ~call.pre
              THEN (IF e.errc = "reader-shutdown" /\ e.val = 0 THEN {} ELSE {V("collect-after-shutdown", e, e.errc)})
+           ELSE IF e.errc = "fault" /\ m.faulted THEN {}      \* a failing callback / producer is reported by Collect
            ELSE IF ~m.sdBegun
              THEN (IF e.errc = "" /\ call.lo <= e.val /\ e.val <= m.addHi THEN {} ELSE {V("collect-wrong", e, e.errc)})
            ELSE ErrViol(m, e, call)
@@ -160,6 +174,7 @@ Step(m, e) ==
     [] e.ev = "ExpShutdown" ->
          <<[m EXCEPT !.xshut[e.c] = @ + 1],
            IF m.xshut[e.c] >= 1 THEN {V("exporter-shutdown-twice", e, m.cfg.kinds[e.c])} ELSE {}>>
+    [] e.ev = "Fault" -> <<[m EXCEPT !.faulted = (@ \/ e.f # "none")], {}>>
     [] e.ev = "Panic" -> <<m, {V("panic", e, e.where)}>>
     [] e.ev = "Hung" -> <<m, {V("hung", e, e.where)}>>
     [] e.ev = "Crash" -> <<m, {V("crash", e, e.where)}>>
